@@ -107,6 +107,9 @@ func (s *Snippets) FetchLoggingEndpoint(fetcher Fetcher) error {
 	}
 
 	// Convert map to key access
+	if s.LoggingEndpoints == nil {
+		s.LoggingEndpoints = LoggingEndpoints{}
+	}
 	for i := range endpoints {
 		s.LoggingEndpoints[endpoints[i]] = struct{}{}
 	}
